@@ -4,6 +4,7 @@ import (
 	"errors"
 	"io"
 	"net"
+	"net/netip"
 	"os"
 	"sync"
 	"testing"
@@ -70,7 +71,7 @@ func TestSharedConn(t *testing.T) {
 	for i, h := range job.Handles {
 		hidx[h] = i
 	}
-	for _, path := range readPaths(t, job.Paths) {
+	for pathNo, path := range readPaths(t, job.Paths) {
 		st["paths"]++
 		synctest.Test(t, func(t *testing.T) {
 			s := newSched("sc.")
@@ -86,7 +87,11 @@ func TestSharedConn(t *testing.T) {
 				closeMux = func() { _ = mux.Close() }
 			} else {
 				sock = newSock(&net.UDPAddr{IP: net.IPv4(127, 0, 0, 1), Port: 7000})
-				mux := ice.NewUDPMuxDefault(ice.UDPMuxParams{UDPConn: sock, Logger: lf.NewLogger("ice")})
+				var under net.PacketConn = sock
+				if pathNo%2 == 1 { // every other path: a socket with the netip.AddrPort calls, so the handles have them too
+					under = fakeAddrPortSocket{sock}
+				}
+				mux := ice.NewUDPMuxDefault(ice.UDPMuxParams{UDPConn: under, Logger: lf.NewLogger("ice")})
 				get = func() (net.PacketConn, error) { return mux.GetConn("u1", sock.LocalAddr()) }
 				closeMux = func() { _ = mux.Close() }
 			}
@@ -337,7 +342,15 @@ func TestSharedConn(t *testing.T) {
 				case "Write":
 					h := args[0]
 					if hidx[h] < len(handles) {
-						_, err := handles[hidx[h]].WriteTo([]byte("x"), dst)
+						// on the paths whose socket offers it, writes go through the netip.AddrPort flavour of the call
+						var err error
+						if ap, isAP := handles[hidx[h]].(interface {
+							WriteToAddrPort(b []byte, addr netip.AddrPort) (int, error)
+						}); isAP {
+							_, err = ap.WriteToAddrPort([]byte("x"), dst.AddrPort())
+						} else {
+							_, err = handles[hidx[h]].WriteTo([]byte("x"), dst)
+						}
 						res := "err"
 						switch {
 						case err == nil:
